@@ -13,7 +13,7 @@ PROP = 'C14'
 MANIFEST = dict(
     text="Program-quantified symbolic check of JsonSchemaValidator (+ the real, pure-Python jsonschema 3.2.0) through the real dispatchers: signatures of 1..2 (quick) / 1..3 (thorough) parameters with / without defaults, "
          "per-parameter schema fragments {integer, string, boolean, array, object, enum, integer with minimum/maximum} plus required / additionalProperties:false, positional / named passing, a context parameter, a parameter removed by the exclusion predicate. "
-         "Argument values are symbolic within bounded domains (ints in [-3, 13], strings of length <= 1, both booleans) per concrete JSON kind. Oracle: executed <=> binds and a reference semantics of the schema fragment holds for the bound arguments; "
+         "Argument values are symbolic within bounded domains (ints in {-1,0,1,2,3,10,11}, strings in {'', 'a', 'b'}, both booleans) per concrete JSON kind. Oracle: executed <=> binds and a reference semantics of the schema fragment holds for the bound arguments; "
          "otherwise -32602 whose data survives the server JSON encoder, body not run; accepted arguments reach the method unchanged; the context / excluded parameters cannot be set by the client.",
     ref='5 C14',
     note="NOT covered: PydanticValidator (type annotations, coercion): pydantic_core is a compiled extension no Python-level symbolic executor can enter, and PydanticValidator.validate_method raises PydanticUserError on every call under the installed pydantic 2.13 "
@@ -21,7 +21,7 @@ MANIFEST = dict(
 )
 BOUNDS = {
     'quick': {'signatures': '1 parameter x 7 fragments x 6 value kinds x {default, no default} x {positional, named}; 2 parameters: 7 x {integer, enum} fragments x 6 x {int, str, absent} value kinds',
-              'domains': 'ints in [-3, 13], strings len <= 1, booleans'},
+              'domains': "ints in {-1,0,1,2,3,10,11}, strings in {'', 'a', 'b'}, booleans"},
     'thorough': {'signatures': '2 parameters full product 7 x 7 fragments x 6 x 6 value kinds; 3 parameters on a thinned product', 'domains': 'as quick'},
 }
 STUBS = ['S1', 'S4 (jsonschema.ValidationError.__str__ constant)', 'S5', 'S13']
@@ -107,9 +107,13 @@ def _conforms(frag, kind, v):
 
 def _value(env, kind, name):
     if kind == 'int':
-        return env.int(name, -3, 13)
+        v = env.int(name, -1, 11)
+        env.assume(v <= 3 or v >= 10)          # bounded domain {-1,0,1,2,3,10,11}: around the enum values and both range bounds
+        return v
     if kind == 'str':
-        return env.str(name, 1)
+        s = env.str(name, 1)
+        env.assume(s == '' or s == 'a' or s == 'b')
+        return s
     if kind == 'bool':
         return env.bool(name)
     if kind == 'null':
